@@ -13,6 +13,7 @@ L5 (parse side): `fromCst` for the container fragment — a transliteration, bug
   * `expressions/function/call.py` `FunctionCall.from_cst` (with `collect_comments_between_with_gap`,
                                  `_collect_comment_trivia` of `trivia.py`)
   * `expressions/with_statement.py` `WithStatement.from_cst`, `expressions/assertion.py` `Assertion.from_cst`
+  * `expressions/select.py`      `Select.from_cst` (without `or` default)
                                  (with `split_inline_comments`, `append_gap_trivia`)
 
 `Expr` has one constructor per Python class with the fields the fragment uses (`Binding` is an
@@ -58,6 +59,9 @@ inductive Expr where
       a field: `rebuild` renders the body as a copy with `before = between + body.before`, and nothing
       else reads it; the model writes that into the body where `from_cst` computes it (`asrtFromCst`). -/
   | asrt (cond body : Expr) (aac bsc : List Trivia) (before after : List Trivia)
+  /-- `Select(expression, attribute, default=None, attr_gap, attr_before)`; `attribute` is kept as its
+      `.`-separated segments (`attrText attrs` is the Python string) -/
+  | sel (expr : Expr) (attrs : List Text) (attrGap : Text) (attrBefore : List Trivia) (before after : List Trivia)
 
 /-- `NixSourceCode(expressions, trailing)` -/
 structure Src where
@@ -73,6 +77,7 @@ def Expr.before : Expr → List Trivia
   | .app _ _ _ _ b _ => b
   | .wth _ _ _ _ _ b _ => b
   | .asrt _ _ _ _ b _ => b
+  | .sel _ _ _ _ b _ => b
 
 def Expr.after : Expr → List Trivia
   | .leaf _ _ _ a => a
@@ -83,6 +88,7 @@ def Expr.after : Expr → List Trivia
   | .app _ _ _ _ _ a => a
   | .wth _ _ _ _ _ _ a => a
   | .asrt _ _ _ _ _ a => a
+  | .sel _ _ _ _ _ a => a
 
 def Expr.setBefore : Expr → List Trivia → Expr
   | .leaf k t _ a, b => .leaf k t b a
@@ -93,6 +99,7 @@ def Expr.setBefore : Expr → List Trivia → Expr
   | .app n x g fa _ a, b => .app n x g fa b a
   | .wth e bd c g s _ a, b => .wth e bd c g s b a
   | .asrt c bd x y _ a, b => .asrt c bd x y b a
+  | .sel e ats g ab _ a, b => .sel e ats g ab b a
 
 def Expr.setAfter : Expr → List Trivia → Expr
   | .leaf k t b _, a => .leaf k t b a
@@ -103,6 +110,7 @@ def Expr.setAfter : Expr → List Trivia → Expr
   | .app n x g fa b _, a => .app n x g fa b a
   | .wth e bd c g s b _, a => .wth e bd c g s b a
   | .asrt c bd x y b _, a => .asrt c bd x y b a
+  | .sel e ats g ab b _, a => .sel e ats g ab b a
 
 /-- `expr.after.extend(ts)` -/
 def Expr.addAfter (e : Expr) (ts : List Trivia) : Expr := e.setAfter (e.after ++ ts)
@@ -372,6 +380,12 @@ def Cst.parse : Cst → Except Err Expr
       match b.parse with
       | .error e => .error e
       | .ok be => .ok (if w then withFromCst he be c1 g1 c2 g2 c3 g3 else asrtFromCst he be c1 g1 c2 g2 c3 g3)
+  | .sel e c1 g1 _ attrs =>
+    -- `Select.from_cst`: attr_before, attr_gap = collect_comments_between_with_gap(node, comments,
+    -- expression_node, dot_node, allow_inline=True); no default
+    match e.parse with
+    | .error err => .error err
+    | .ok ee => .ok (.sel ee attrs g1 (collectTrivia c1 g1) [] [])
 /-- the loop of `parse_delimited_sequence` -/
 def Items.parseSeq : Items → Mode → SeqSt → Except Err SeqSt
   | .nil, _, st => .ok st
